@@ -246,7 +246,15 @@ func buildErrModel(c *Ctx) *errModel {
 							} else {
 								other = true
 							}
-						case *ssa.Store, *ssa.MapUpdate, *ssa.Go, *ssa.Defer, *ssa.If:
+						case *ssa.Store:
+							// the spilled copy of a struct parameter (value receiver) is not an effect
+							if al, isAl := x.Addr.(*ssa.Alloc); isAl && !al.Heap {
+								if _, isP := x.Val.(*ssa.Parameter); isP {
+									continue
+								}
+							}
+							other = true
+						case *ssa.MapUpdate, *ssa.Go, *ssa.Defer, *ssa.If:
 							other = true
 						}
 					}
@@ -264,7 +272,23 @@ func buildErrModel(c *Ctx) *errModel {
 					return -1
 				}
 				args := hc.Common().Args
-				w := &handlerInfo{Fn: g, UrlField: h.UrlField, UrlIdx: idxOf(args[h.UrlIdx]), TypeIdx: idxOf(args[h.TypeIdx]), FailIdx: idxOf(args[h.FailIdx]), DescrIdx: -1, CauseIdx: -1, Ctor: h.Ctor, CtorCall: h.CtorCall, Forward: h, ForwardCall: hc}
+				uIdx, uField := idxOf(args[h.UrlIdx]), h.UrlField
+				if uIdx < 0 && h.UrlField < 0 {
+					// the URL handed on is the *Url field of an object the wrapper is handed (or is a method of)
+					for i, q := range g.Params {
+						st, ok := structOf(q.Type())
+						if !ok {
+							continue
+						}
+						for k := 0; k < st.NumFields(); k++ {
+							probe := &handlerInfo{Fn: g, UrlIdx: i, UrlField: k}
+							if namedOf(st.Field(k).Type()) == "Url" && probe.isURL(args[h.UrlIdx], func(v ssa.Value) ssa.Value { return v }) {
+								uIdx, uField = i, k
+							}
+						}
+					}
+				}
+				w := &handlerInfo{Fn: g, UrlField: uField, UrlIdx: uIdx, TypeIdx: idxOf(args[h.TypeIdx]), FailIdx: idxOf(args[h.FailIdx]), DescrIdx: -1, CauseIdx: -1, Ctor: h.Ctor, CtorCall: h.CtorCall, Forward: h, ForwardCall: hc}
 				if w.UrlIdx < 0 || w.TypeIdx < 0 || w.FailIdx < 0 {
 					continue
 				}
